@@ -75,7 +75,8 @@ func readBatch(path string) ([]input, error) {
 		if len(b) < 4+l {
 			return nil, io.ErrUnexpectedEOF
 		}
-		p := b[4 : 4+l]
+		// capacity = length: a decoder slicing beyond the input must panic as it would on an exactly sized network buffer
+		p := b[4 : 4+l : 4+l]
 		b = b[4+l:]
 		return p, nil
 	}
@@ -325,7 +326,7 @@ func Child(args []string) int {
 		// development aid: mon C14 child <target> hex:<input> /dev/stdout 0
 		var b []byte
 		b, err = hex.DecodeString(args[1][4:])
-		ins = []input{{class: "manual", data: b}}
+		ins = []input{{class: "manual", data: b[:len(b):len(b)]}}
 	} else {
 		ins, err = readBatch(args[1])
 	}
